@@ -11,7 +11,8 @@ flat declaration is computed the way the property says:
   R10.b  prefixing composes: BoundRoute.pattern = prefix + route.pattern (the already-bound inner
          pattern), prefix defaults to '', SubApplication.prefix = prefix.rstrip('/');
   R10.c  middleware order (= R03.d), resource precedence at bind and request time (= R02.c), built-in
-         _application is the outermost binding application;
+         _application is the outermost binding application; the chain a bound route executes is compiled at that
+         binding from the merged list (never taken over from the route being re-bound);
   R10.d  error handling comes from the application being bound into: the value that ends up in
          self.render_error is app.error_handler's when rebind_render_error (default True, no caller switches it
          off) and the route's otherwise; it is checked against the merged resources; dispatch consults
@@ -836,14 +837,86 @@ def _r10a_add(rep, app):
 
 
 # ------------------------------------------------------------------------------------------------ R10.b
-def _getattr_cases(fl, mod, leaf):
+def _class_sets_attr(repo, ci, attr):
+    """True / False: instances of class ``ci`` (of the analysed tree) have / do not have attribute ``attr`` -- a method,
+    property or class-level name of the class or one of its bases, or ``self.attr`` stored by one of their methods; None
+    when a base is not a class of the tree."""
+    for c in repo.mro(ci):
+        if not hasattr(c, 'methods'):
+            if c in ('object',) or getattr(c, 'name', None) == 'object':
+                continue
+            return None
+        if attr in c.methods or attr in c.class_attrs:
+            return True
+        for m in c.methods.values():
+            for n in ast.walk(m.node):
+                if isinstance(n, ast.Attribute) and n.attr == attr and isinstance(n.ctx, ast.Store) and \
+                        isinstance(n.value, ast.Name) and n.value.id == 'self':
+                    return True
+                if isinstance(n, ast.Call) and call_name(n) == 'setattr':
+                    return None     # attributes set by computed name
+    return False
+
+
+def _isinstance_presence(fl, mod, test, pol, wanted):
+    """``isinstance(obj, C)`` (not) holding decides ``hasattr(obj, attr)`` for the (obj, attr) pairs asked about: under the
+    test every class ``obj`` can then be (C and its subclasses / the other classes of obj's receiver role and theirs) has
+    the attribute, or none has.  -> [(obj text, attr, present?)]"""
+    from ..callgraph import ROLE_TABLE
+    repo = mod.repo
+    if not (isinstance(test, ast.Call) and call_name(test) == 'isinstance' and len(test.args) == 2 and not test.keywords):
+        return []
+    obj = norm(test.args[0])
+    ci = repo.resolve_class(mod, test.args[1])
+    if not hasattr(ci, 'methods'):
+        return []
+    out = []
+    for o, a in wanted:
+        if o != obj:
+            continue
+        if pol:
+            cands = [ci] + repo.subclasses(ci)
+        else:
+            universe = []
+            for modname, cname in ROLE_TABLE.get(obj, []):
+                m = repo.try_mod(modname)
+                if m is not None and cname in m.classes:
+                    universe.append(m.classes[cname])
+            if not universe or ci not in universe:
+                continue
+            cands = []
+            for u in universe:
+                for c in [u] + repo.subclasses(u):
+                    if c is not ci and ci not in repo.mro(c) and c not in cands:
+                        cands.append(c)
+        have = [_class_sets_attr(repo, c, a) for c in cands]
+        if cands and all(h is True for h in have):
+            out.append((o, a, True))
+        elif cands and all(h is False for h in have):
+            out.append((o, a, False))
+    return out
+
+
+def _getattr_cases(fl, mod, leaf, wanted=()):
     """[(object text, attribute, present?)]: the leaf flows only when ``hasattr(obj, attr)`` is / is not true -- from an explicit
-    ``hasattr`` test on the path, or from ``try: x = obj.attr / except AttributeError: x = default``."""
+    ``hasattr`` test on the path, from ``try: x = obj.attr / except AttributeError: x = default``, or -- for the
+    (object, attribute) pairs in ``wanted`` -- from an ``isinstance(obj, Class)`` test that separates the classes which
+    have the attribute from those which do not.  A test carried by a local (``rebinding = isinstance(..)``) is looked up."""
     from ..astutil import handler_catches
     out = []
     for t, p in leaf.conds:
+        for _ in range(3):
+            if isinstance(t, ast.UnaryOp) and isinstance(t.op, ast.Not):
+                t, p = t.operand, not p
+                continue
+            k = slot_key(t)
+            d = fl.single_def(k, fl.stmt_of(t)) if k is not None and fl.stmt_of(t) is not None else None
+            if d is None or not isinstance(d.value, (ast.Call, ast.UnaryOp, ast.Name)):
+                break
+            t = d.value
         if isinstance(t, ast.Call) and call_name(t) == 'hasattr' and len(t.args) == 2 and isinstance(t.args[1], ast.Constant):
             out.append((norm(t.args[0]), t.args[1].value, p))
+        out.extend(_isinstance_presence(fl, mod, t, p, wanted))
     st = leaf.stmt if isinstance(leaf.stmt, ast.AST) else None
     par = mod.parents.get(st) if st is not None else None
 
@@ -893,7 +966,9 @@ def _slot_is(fl, mod, slot, expected_text, what):
         return False, None
     if len(lv) == 1:
         return (not lv[0].opaque) and fl.text(lv[0].value, lv[0].stmt) == expected_text, lv[0]
-    cases = [_getattr_cases(fl, mod, l) for l in lv]
+    wanted = [(norm(c.args[0]), c.args[1].value) for c in ast.walk(_expr(expected_text))
+              if isinstance(c, ast.Call) and call_name(c) == 'getattr' and len(c.args) == 3 and isinstance(c.args[1], ast.Constant)]
+    cases = [_getattr_cases(fl, mod, l, wanted) for l in lv]
     if any(l.opaque for l in lv) or not all(cases):
         raise AnalysisError('%s: %s has several definitions that are not understood as one value' % (fl.fi.qualname, what))
     pols = set((o, a, p) for c in cases for o, a, p in c)
@@ -907,6 +982,158 @@ def _single_leaf(fl, slot):
     if len(lv) == 1 and not lv[0].opaque:
         return lv[0]
     return None
+
+
+class _Origin(object):
+    """Where the list a chain value started from was made (value, statement, path conditions): what ``_getattr_cases`` reads."""
+    __slots__ = ('value', 'stmt', 'conds', 'opaque')
+
+    def __init__(self, value, stmt, conds):
+        self.value, self.stmt, self.conds, self.opaque = value, stmt, list(conds), False
+
+
+def _app_chain(fl, mod, expr, at, rp, ap, conds=(), depth=0):
+    """Abstract value of the list expression ``expr`` evaluated at ``at`` in BoundRoute.__init__: [(items, fresh, origin)] over
+    every way the value can have been made.  ``items``: a tuple over 'prev' (the chain of the route being re-bound:
+    ``route.bound_apps`` / ``getattr(route, 'bound_apps', [])``), 'app' (the binding application) and ('?', text) for anything
+    else; ``fresh``: the list object was allocated by this constructor call (display, ``+``, ``list(..)``, slice, ``.copy()``)
+    rather than being the re-bound route's own list; ``x += more`` extends whatever ``x`` was in place."""
+    e = expr
+    here = at if isinstance(at, ast.AST) else None
+
+    def unknown(why=None):
+        return [((('?', why or short(e, 40)),), False, _Origin(e, here, conds))]
+
+    def is_route(x):
+        return fl.text(x, here) == rp
+
+    if depth > 10:
+        return unknown('too deep')
+    if isinstance(e, ast.IfExp):
+        from ..cfg import expand_conds
+        out = []
+        for arm, pol in ((e.body, True), (e.orelse, False)):
+            out += _app_chain(fl, mod, arm, at, rp, ap, list(conds) + expand_conds([(e.test, pol)]), depth + 1)
+        return out
+    if isinstance(e, (ast.List, ast.Tuple)):
+        acc = [()]
+        for x in e.elts:
+            if isinstance(x, ast.Starred):
+                subs = _app_chain(fl, mod, x.value, at, rp, ap, conds, depth + 1)
+                acc = [a + it for a in acc for it, _, _ in subs]
+            elif fl.text(x, here) == ap:
+                acc = [a + ('app',) for a in acc]
+            else:
+                acc = [a + (('?', norm(x)),) for a in acc]
+        return [(a, True, _Origin(e, here, conds)) for a in acc]
+    if isinstance(e, ast.BinOp) and isinstance(e.op, ast.Add):
+        ls = _app_chain(fl, mod, e.left, at, rp, ap, conds, depth + 1)
+        rs = _app_chain(fl, mod, e.right, at, rp, ap, conds, depth + 1)
+        return [(l[0] + r[0], True, l[2]) for l in ls for r in rs]
+    if isinstance(e, ast.BoolOp) and isinstance(e.op, ast.Or) and len(e.values) == 2 and isinstance(e.values[1], (ast.List, ast.Tuple)) and \
+            not e.values[1].elts:
+        return _app_chain(fl, mod, e.values[0], at, rp, ap, conds, depth + 1)      # ``prev or []``: an empty chain either way
+    if isinstance(e, ast.Subscript) and isinstance(e.slice, ast.Slice) and e.slice.lower is None and e.slice.upper is None and e.slice.step is None:
+        return [(it, True, o) for it, _, o in _app_chain(fl, mod, e.value, at, rp, ap, conds, depth + 1)]
+    if isinstance(e, ast.Call):
+        if call_name(e) in ('list', 'tuple') and not e.keywords and len(e.args) <= 1:
+            if not e.args:
+                return [((), True, _Origin(e, here, conds))]
+            return [(it, True, o) for it, _, o in _app_chain(fl, mod, e.args[0], at, rp, ap, conds, depth + 1)]
+        if isinstance(e.func, ast.Attribute) and e.func.attr == 'copy' and not e.args and not e.keywords:
+            return [(it, True, o) for it, _, o in _app_chain(fl, mod, e.func.value, at, rp, ap, conds, depth + 1)]
+        if call_name(e) == 'getattr' and len(e.args) == 3 and not e.keywords and isinstance(e.args[1], ast.Constant) and \
+                e.args[1].value == 'bound_apps' and is_route(e.args[0]) and isinstance(e.args[2], (ast.List, ast.Tuple)) and not e.args[2].elts:
+            return [(('prev',), False, _Origin(e, here, conds))]
+        return unknown()
+    if isinstance(e, ast.Attribute) and e.attr == 'bound_apps' and slot_key(e) is None:
+        if is_route(e.value):
+            return [(('prev',), False, _Origin(e, here, conds))]
+        return unknown()
+    k = slot_key(e)
+    if k is None:
+        return unknown()
+    ds = fl.reaching(k, at)
+    out = []
+    for d in ds:
+        cs = list(conds) + [c for c in (fl.conds(d.stmt) if d.stmt is not None else []) if c not in conds]
+        if len(ds) > 1:
+            cs = cs + [c for c in fl.flow_conds(d, at) if c not in cs]
+        if d.kind == 'assign' and d.idx is None:
+            out += _app_chain(fl, mod, d.value, d.stmt, rp, ap, cs, depth + 1)
+        elif d.kind == 'aug' and isinstance(d.stmt, ast.AugAssign) and isinstance(d.stmt.op, ast.Add) and d.stmt is not at:
+            before = _app_chain(fl, mod, d.stmt.target, d.stmt, rp, ap, cs, depth + 1)
+            more = _app_chain(fl, mod, d.stmt.value, d.stmt, rp, ap, cs, depth + 1)
+            out += [(b[0] + m[0], b[1], b[2]) for b in before for m in more]
+        else:
+            out += [((('?', '%s (%s)' % (k, d.kind)),), False, _Origin(e, here, cs))]
+    return out or unknown()
+
+
+def _rebound_after(fl, names, stmt):
+    """One of the slots ``names`` (all naming one list) is given another object after ``stmt`` -- anything but a plain copy
+    from another of them."""
+    cfg_ = fl.cfg
+    after = cfg_.reach([m for n in cfg_.nodes_of(stmt) for m in cfg_.succ[n]])
+    for k in names:
+        for d in fl.defs.get(k, []):
+            if d.stmt is stmt or not (set(cfg_.nodes_of(d.stmt)) & after):
+                continue
+            if not (d.kind == 'assign' and d.idx is None and d.value is not None and slot_key(d.value) in names):
+                return True
+    return False
+
+
+def _bound_apps_chain(fl, bi, mod, rp, ap):
+    """-> (ok, detail, node).  The chain of applications kept by the new bound route is the chain of the route being re-bound
+    followed by the binding application, in a list of its own: one inner route is re-bound into every parent its
+    application is embedded in, so a list shared with it would collect applications that are not on this route's
+    embedding chain -- and the render-factory search walks the chain."""
+    cfg_ = fl.cfg
+    if not fl.defs.get('self.bound_apps'):
+        return False, 'self.bound_apps is never assigned', bi.node
+    cases = _app_chain(fl, mod, _expr('self.bound_apps'), 'exit', rp, ap)
+    # in-place growth through method calls on the attribute / a local that names the same list
+    names = fl.aliases('self.bound_apps')
+    grown = []
+    for e in effects_in(bi.node):
+        if e.kind != 'mutcall' or norm(e.target) not in names:
+            continue
+        st = stmt_of(mod, e.node)
+        key = norm(e.target)
+        more = None
+        if e.method == 'append' and len(e.node.args) == 1 and not e.node.keywords and fl.text(e.node.args[0], st) == ap:
+            more = ('app',)
+        elif e.method == 'extend' and len(e.node.args) == 1 and not e.node.keywords:
+            sub = _app_chain(fl, mod, e.node.args[0], st, rp, ap)
+            if len(sub) == 1:
+                more = sub[0][0]
+        once = more is not None and cfg_.must_pass(cfg_.nodes_of(st), cfg_.entry, cfg_.exit, normal_only=True) and \
+            not any(isinstance(l, (ast.For, ast.While)) and st in stmts_of(l) for l in stmts_of(bi.node)) and \
+            not _rebound_after(fl, names, st)
+        if not once:
+            return False, 'the chain is modified by %s, which is not one unconditional append of the binding application' % short(e.node, 50), e.node
+        grown.append(more)
+    tail = tuple(x for g in grown for x in g)
+    bad = None
+    for items, fresh, origin in cases:
+        items = items + tail
+        absent = (rp, 'bound_apps', False) in _getattr_cases(fl, mod, origin, [(rp, 'bound_apps')])
+        if items == ('prev', 'app') and fresh:
+            continue
+        if items == ('app',) and fresh and absent:
+            continue        # first binding: the route has no chain yet
+        where = origin.stmt if isinstance(origin.stmt, ast.AST) else bi.node
+        if items == ('prev', 'app') or (items == ('app',) and absent):
+            bad = ('the chain is built in the list of the route being re-bound (%s is extended in place, not copied): every later '
+                   'embedding of the same application sees the applications of this one' % short(origin.value, 40), where)
+        else:
+            shown = ' + '.join(x if isinstance(x, str) else x[1] for x in items) or 'empty'
+            bad = ('the chain is %s, not the previous chain followed by the binding application' % shown, where)
+        break
+    if bad:
+        return False, bad[0], bad[1]
+    return bool(cases), 'previous chain + [app], a new list per binding', bi.node
 
 
 def _r10b(rep, app, route):
@@ -937,17 +1164,37 @@ def _r10b(rep, app, route):
     ok, _ = _slot_is(fl, route, 'self.unbound_route', "getattr(%s, 'unbound_route', %s)" % (ps[1], ps[1]), 'self.unbound_route')
     rep.check('R10.b', fkey(bi, 'unbound_route'), ok, 'endpoint/render always come from the original unbound route, at any depth' if ok else
               'unbound_route is not carried through re-binding', route, bi.node)
-    prev = "getattr(%s, 'bound_apps', [])" % ps[1]
-    ok, lf = _slot_is(fl, route, 'self.bound_apps', "%s + [%s]" % (prev, ps[2]), 'self.bound_apps')
-    if not ok and lf is not None and isinstance(lf.value, ast.Call) and call_name(lf.value) == 'list' and len(lf.value.args) == 1 and \
-            fl.text(lf.value.args[0], lf.stmt) == prev:
-        # a copy of the previous list, then exactly one unconditional append of the binding application
-        muts = [e for e in effects_in(bi.node) if (e.chain or [])[:2] == ['self', 'bound_apps'] and not (e.kind == 'store' and e.node is lf.stmt)]
-        cfg_ = fl.cfg
-        ok = len(muts) == 1 and muts[0].kind == 'mutcall' and muts[0].method == 'append' and [norm(a) for a in muts[0].node.args] == [ps[2]] and \
-            cfg_.must_pass(cfg_.nodes_of(stmt_of(route, muts[0].node)), cfg_.entry, cfg_.exit, normal_only=True)
-    rep.check('R10.b', fkey(bi, 'bound_apps'), ok, 'bound_apps grows inner -> outer; [-1] is the serving application' if ok else
-              'bound_apps is not extended with the binding application at the end', route, bi.node)
+    ok, why, where = _bound_apps_chain(fl, bi, route, ps[1], ps[2])
+    rep.check('R10.b', fkey(bi, 'bound_apps'), ok, 'bound_apps grows inner -> outer in a list of its own; [-1] is the serving application' if ok else
+              'bound_apps is not a new list holding the previous chain and then the binding application: %s' % why, route, where)
+
+
+# ------------------------------------------------------------------------------------------------ R10.c (own part)
+def _r10c_chain_compiled_here(rep, route):
+    """The chain a bound route executes is compiled at this binding from the middleware list merged at this binding: every
+    value that can reach ``self._execute`` is ``make_middleware_chain(<self.middlewares>, ..)``.  A chain taken over from
+    the route being re-bound runs the inner application's middleware instances (and renderer), whatever the new route
+    declares -- the flat declaration runs the outer ones."""
+    bi = route.func('BoundRoute.__init__')
+    fl = Flow(bi)
+    if not fl.defs.get('self._execute'):
+        raise AnalysisError('BoundRoute.__init__: self._execute is not assigned here')
+    lv = fl.leaves(_expr('self._execute'), 'exit')
+    _require_followed(rep.repo, bi, lv, 'self._execute')
+    merged = fl.aliases('self.middlewares')
+    bad = []
+    for l in lv:
+        v = l.value
+        first = argn(v, 'middlewares', 0) if isinstance(v, ast.Call) and call_name(v) == 'make_middleware_chain' and not l.opaque else None
+        at = l.stmt if isinstance(l.stmt, ast.AST) else None
+        if first is None or not (norm(first) in merged or fl.text(first, at) in merged):
+            bad.append(l)
+    ok = bool(lv) and not bad
+    rep.check('R10.c', fkey(bi, 'chain compiled for this binding'), ok,
+              'the executed chain is compiled at every binding from the middleware list merged at that binding' if ok else
+              'self._execute can be %s instead of make_middleware_chain(self.middlewares, ..): a re-bound route would run a chain compiled for '
+              'another binding (the inner application\'s middleware instances and renderer), not the merged list it declares' %
+              [short(l.value, 50) for l in bad], route, (bad[0].stmt if bad and isinstance(bad[0].stmt, ast.AST) else bi.node))
 
 
 # ------------------------------------------------------------------------------------------------ R10.d
@@ -957,6 +1204,57 @@ def _receivers(fi, fl, attrs):
         if isinstance(n, ast.Attribute) and n.attr in attrs and isinstance(n.ctx, ast.Load):
             out.append(fl.text(n.value, stmt_of(fi.mod, n)))
     return out
+
+
+def _rename_roots(expr, mapping):
+    class S(ast.NodeTransformer):
+        def visit_Name(self, n):
+            if n.id in mapping and isinstance(n.ctx, ast.Load):
+                return copy.deepcopy(mapping[n.id])
+            return n
+    return S().visit(copy.deepcopy(expr))
+
+
+def _receivers_through_calls(repo, fi, attrs, cg=None, depth=0):
+    """Like ``_receivers``, followed into the functions of the tree that ``fi`` hands its own values to (the lookup moved
+    behind a call: ``state.error_for(request, _application)``): a receiver found in the callee is expressed in the
+    caller's terms -- the callee's parameters stand for the argument expressions, its ``self`` for the call's receiver.
+    Only calls that name exactly one function of the tree (directly, through self, a receiver role, or a method name
+    only one class defines) are followed; -> (receiver texts, call graph)."""
+    fl = Flow(fi)
+    out = _receivers(fi, fl, attrs)
+    if depth >= 2:
+        return out, cg
+    for c in walk_body(fi.node):
+        if not isinstance(c, ast.Call) or any(isinstance(a, ast.Starred) for a in c.args) or any(k.arg is None for k in c.keywords):
+            continue
+        if not isinstance(c.func, (ast.Name, ast.Attribute)):
+            continue
+        if cg is None:
+            from ..callgraph import CallGraph
+            cg = CallGraph(repo)
+        tg, kind = cg._resolve_expr(fi, c.func)
+        tg = [t for t in tg if hasattr(t, 'params') and not t.mod.external and not isinstance(t.node, ast.Lambda)]
+        if len(tg) != 1 or kind not in ('call', 'self', 'role', 'cha', 'classattr') or tg[0] is fi:
+            continue
+        callee = tg[0]
+        st = stmt_of(fi.mod, c)
+        ps = list(callee.params())
+        mapping = {}
+        static = any(isinstance(d, ast.Name) and d.id == 'staticmethod' for d in callee.node.decorator_list)
+        if callee.cls is not None and not static and kind != 'classattr' and ps and isinstance(c.func, ast.Attribute):
+            mapping[ps.pop(0)] = fl.resolve(c.func.value, st)
+        if len(c.args) > len(ps):
+            continue
+        for p_, a in zip(ps, c.args):
+            mapping[p_] = fl.resolve(a, st)
+        for k in c.keywords:
+            if k.arg in ps and k.arg not in mapping:
+                mapping[k.arg] = fl.resolve(k.value, st)
+        inner, cg = _receivers_through_calls(repo, callee, attrs, cg, depth + 1)
+        for txt in inner:
+            out.append(norm(_rename_roots(_expr(txt), mapping)))
+    return out, cg
 
 
 def _r10d(rep, app, route):
@@ -985,9 +1283,15 @@ def _r10d(rep, app, route):
         raise AnalysisError("BoundRoute.__init__: no read of the bind keyword 'rebind_render_error' recognised")
     rep.check('R10.d', fkey(bi, 'rebind_render_error default'), dflt, 'rebind_render_error defaults to True' if dflt else 'rebind_render_error does not default to True', route, bi.node)
     offs = []
+
+    def forwards(v):
+        """``opts.pop('rebind_render_error', True)`` / ``.get(..)``: the caller's own value handed on, on by default"""
+        return isinstance(v, ast.Call) and isinstance(v.func, ast.Attribute) and v.func.attr in ('pop', 'get') and not v.keywords and \
+            len(v.args) == 2 and isinstance(v.args[0], ast.Constant) and v.args[0].value == 'rebind_render_error' and \
+            isinstance(v.args[1], ast.Constant) and v.args[1].value is True
     for m in repo.all_internal_modules():
         for n in ast.walk(m.tree):
-            if isinstance(n, ast.keyword) and n.arg == 'rebind_render_error':
+            if isinstance(n, ast.keyword) and n.arg == 'rebind_render_error' and not forwards(n.value):
                 offs.append((m, n))
             if isinstance(n, ast.Constant) and n.value == 'rebind_render_error' and m.name != ROUTE:
                 offs.append((m, n))
@@ -1006,12 +1310,17 @@ def _r10d(rep, app, route):
     d = app.func('Application.dispatch')
     rc = _receivers(d, Flow(d), ('not_found_type', 'uncaught_to_response', 'method_not_allowed_type'))
     if not rc:
+        rc, _ = _receivers_through_calls(repo, d, ('not_found_type', 'uncaught_to_response', 'method_not_allowed_type'))
+    if not rc:
         raise AnalysisError('Application.dispatch: no use of an error handler (not_found_type / uncaught_to_response) found')
     ok = all(r == 'self.error_handler' for r in rc)
     rep.check('R10.d', fkey(d, 'err_handler'), ok, 'uncaught errors and 404/405 types come from the serving application\'s error handler' if ok else
               'dispatch does not consult self.error_handler: %s' % sorted(set(rc)), app, d.node)
     hs = route.func('NullRoute.handle_sentinel_condition')
     rc = _receivers(hs, Flow(hs), ('not_found_type', 'method_not_allowed_type'))
+    if not rc:
+        # the lookup moved behind a call that is handed the application: followed into the function of the tree it names
+        rc, _ = _receivers_through_calls(repo, hs, ('not_found_type', 'method_not_allowed_type'))
     if not rc:
         raise AnalysisError('NullRoute.handle_sentinel_condition: no use of an error handler found')
     ok = all(r == '_application.error_handler' for r in rc)
@@ -1246,10 +1555,13 @@ def run(rep):
     def slash_plumbing():
         from .c07 import check_slash_plumbing
         check_slash_plumbing(rep, 'R10.c')
+    def chain_compiled_here():
+        _r10c_chain_compiled_here(rep, route)
     rep_guard(merge_order)
     rep_guard(request_layers)
     rep_guard(slash_plumbing)
-    rep_guard(rep.floor, 'R10.c', 24)
+    rep_guard(chain_compiled_here)
+    rep_guard(rep.floor, 'R10.c', 25)
 
     # ---- R10.d -----------------------------------------------------------
     def error_handling_rules():
